@@ -46,13 +46,18 @@ def lost(img, old, new):
     return ", ".join(out)
 
 
-def record_case(ck, binary, d, name, old_spec, change):
+def record_case(ck, binary, d, name, old_spec, change, reuse=None):
     path = os.path.join(d, "client-%s.yaml" % name)
-    recs = ck.drive(binary, ["mkcfg", path], input_obj=old_spec)
-    if not recs:
-        raise vf.Infra("mkcfg gave no summary")
-    with open(path, "rb") as f:
-        old_bytes = f.read()
+    if reuse is None:
+        recs = ck.drive(binary, ["mkcfg", path], input_obj=old_spec)
+        if not recs:
+            raise vf.Infra("mkcfg gave no summary")
+        with open(path, "rb") as f:
+            old_bytes = f.read()
+    else:                 # the same old file again (byte for byte), for a second recording
+        old_bytes, recs = reuse
+        with open(path, "wb") as f:
+            f.write(old_bytes)
     if name.startswith("symlink-"):
         real = os.path.join(d, "client-%s.real.yaml" % name)
         os.rename(path, real)
@@ -77,6 +82,103 @@ def record_case(ck, binary, d, name, old_spec, change):
     return dict(name=name, path=path, ops=ops, images=imgs, old=res["old"], new=res["new"], old_spec=old_spec, change=change)
 
 
+def inode_fs(seq, initial):
+    """file-system image after the operations seq = [(saver, op)] of several processes: paths name inodes, an open descriptor keeps writing
+    to the inode it was opened on (also after that inode was renamed over another path or unlinked), O_TRUNC empties the inode in place.
+    An operation that cannot succeed in the interleaving (exclusive create of an existing name, rename of a vanished source) ends that
+    saver: its later operations are skipped."""
+    inodes, paths, fds, dead = {}, {}, {}, set()
+    for p, b in initial.items():
+        inodes[len(inodes)] = bytearray(b)
+        paths[p] = len(inodes) - 1
+    for who, o in seq:
+        if who in dead:
+            continue
+        k = o["op"]
+        if k == "open":
+            if o["path"] not in paths:
+                if not o["creat"]:
+                    dead.add(who)
+                    continue
+                inodes[len(inodes)] = bytearray()
+                paths[o["path"]] = len(inodes) - 1
+            elif o["creat"] and o.get("excl"):
+                dead.add(who)
+                continue
+            elif o["trunc"]:
+                del inodes[paths[o["path"]]][:]
+            fds[(who, o["fd"])] = paths[o["path"]]
+        elif k == "write":
+            ino = fds.get((who, o["fd"]))
+            if ino is None:
+                continue
+            b = inodes[ino]
+            off = len(b) if o["off"] is None else o["off"]
+            if off > len(b):
+                b.extend(b"\0" * (off - len(b)))
+            b[off:off + len(o["data"])] = o["data"]
+        elif k == "truncate":
+            if o["path"] in paths:
+                b = inodes[paths[o["path"]]]
+                del b[o["len"]:]
+                b.extend(b"\0" * (o["len"] - len(b)))
+        elif k == "rename":
+            if o["src"] not in paths:
+                dead.add(who)
+                continue
+            paths[o["dst"]] = paths.pop(o["src"])
+        elif k == "unlink":
+            paths.pop(o["path"], None)
+    return {p: bytes(inodes[i]) for p, i in paths.items()}
+
+
+def two_savers(ck, binary, d):
+    """two processes save the same configuration file (the daemon and a command-line invocation both store a renewed certificate): saver B has
+    done some of its file operations when saver A saves completely, B goes on and stops abruptly at any later boundary.  The file must hold
+    the previous configuration or one of the two new ones."""
+    base = dict(key="gen", cert="gen:%d:700" % ck.seed, apex="gw.test:443", tunnels=[TUN(0), CUSTOM])
+    A = record_case(ck, binary, d, "pair", base, dict(cert="gen:%d:720" % (ck.seed + 3000)))
+    B = record_case(ck, binary, d, "pair", base, dict(set_tunnels=True, tunnels=[TUN(k) for k in range(40)]), reuse=(A["images"][0], [A["old"]]))
+    if A["images"][0] != B["images"][0] or A["old"] != B["old"]:
+        raise vf.Infra("the two recordings did not start from the same configuration file")
+    path, old = A["path"], A["images"][0]
+    combos = []
+    for first, second, tag in ((B, A, "B-interrupted-by-A"), (A, B, "A-interrupted-by-B")):
+        n = len(first["ops"])
+        for k in range(n + 1):
+            for j in range(k, n + 1):
+                seq = [("x", o) for o in first["ops"][:k]] + [("y", o) for o in second["ops"]] + [("x", o) for o in first["ops"][k:j]]
+                combos.append((tag, k, j, n, inode_fs(seq, {path: old}).get(path)))
+    imgdir = os.path.join(d, "images2")
+    os.makedirs(imgdir)
+    uniq, lines = {}, []
+    for _, _, _, _, im in combos:
+        if im is not None and im not in uniq:
+            p = os.path.join(imgdir, "img%d.yaml" % len(uniq))
+            with open(p, "wb") as f:
+                f.write(im)
+            uniq[im] = len(lines)
+            lines.append({"path": p})
+    parsed = {x["i"]: x["o"] for x in ck.drive(binary, ["parse"], input_lines=lines) if "i" in x}
+    if len(parsed) != len(lines):
+        raise vf.Infra("parser answered %d of %d images" % (len(parsed), len(lines)))
+    ok_cfgs = [A["old"], A["new"], B["new"]]
+    for tag, k, j, n, im in combos:
+        ck.count(("two-savers", tag, k, j), 0 < k < n)
+        if im is None:
+            detail = "the configuration file does not exist"
+        else:
+            pr = parsed[uniq[im]]
+            if pr["ok"] and pr["cfg"] in ok_cfgs:
+                continue
+            detail = lost(pr, A["old"], A["new"])
+        ck.violation("C45:two-savers:%s" % ("config-file-absent" if im is None else "neither-old-nor-new"),
+                     "two processes save the same configuration file (%s): one has done %d of its %d file operations when the other saves completely, goes on and stops "
+                     "abruptly after operation %d: the file is then %s" % (tag, k, n, j, detail), None)
+    ck.traces += 2
+    ck.extra["two_saver_interleavings"] = len(combos)
+
+
 def mode_of(case):
     cfgp = case["path"]
     for o in case["ops"]:
@@ -97,7 +199,9 @@ def mode_of(case):
 def run(ck):
     ck.rule = ("cases = configuration saves (tunnels grow / shrink, apex update, certificate renewal, first certificate, and saves through a path that is a symbolic link; seeded sizes) executed by "
                "the real Config.writeFile in a child process under strace; evaluations = file-operation boundaries, each reconstructed as a disk "
-               "image and parsed with the real NewConfig; non-trivial = boundaries strictly between the first and the last file operation of the save (the process would stop in the middle of it)")
+               "image and parsed with the real NewConfig; non-trivial = boundaries strictly between the first and the last file operation of the save (the process would stop in the middle of it); "
+               "plus two recorded saves of the same file interleaved on an inode-level file model (one saver part-way, the other completely, the first continues "
+               "and stops at every later boundary)")
     binary = ck.build("client")
     d = clientlib.scratch_dir(ck, "c45")
     try:
@@ -121,6 +225,8 @@ def run(ck):
         parsed = {x["i"]: x["o"] for x in ck.drive(binary, ["parse"], input_lines=lines) if "i" in x}
         if len(parsed) != len(lines):
             raise vf.Infra("parser answered %d of %d images" % (len(parsed), len(lines)))
+        if ck.replay is None:
+            two_savers(ck, binary, d)
     finally:
         shutil.rmtree(d, ignore_errors=True)
 
